@@ -65,6 +65,10 @@ func genNum(r *Rng) string {
 }
 
 func genSufNum(r *Rng) string {
+	if r.Chance(12) {
+		// time stamps and word-size boundaries (suffix numbers are often YYYYMMDD[HHMMSS])
+		return Pick(r, []string{"20191002222144", "20240101120000", "4294967296", "4294967295", "2147483648", "65536", "20230508"})
+	}
 	switch r.Intn(6) {
 	case 0, 1:
 		return ""
